@@ -46,6 +46,7 @@ class StreamSession:
 
     __slots__ = (
         "_closed",
+        "_drained",
         "_external_config",
         "_header",
         "_input_schema",
@@ -77,6 +78,7 @@ class StreamSession:
         self._input_schema: pa.Schema | None = None
         self._output_reader: ValidatedReader | None = None
         self._closed = False
+        self._drained = False
         self._external_config = external_config
         self._ipc_validation = ipc_validation
         self._shm = shm
@@ -86,6 +88,15 @@ class StreamSession:
     def header(self) -> object | None:
         """The stream header, or ``None`` if the stream has no header."""
         return self._header
+
+    @property
+    def _settled(self) -> bool:
+        """Whether the session is closed *and* its output was read to end-of-stream.
+
+        Only then is the transport back at a message boundary; a pooled
+        transport uses this to decide whether the worker may be reused.
+        """
+        return self._closed and self._drained
 
     def typed_header[H: ArrowSerializableDataclass](self, header_type: type[H]) -> H:
         """Return the stream header narrowed to the expected type.
@@ -238,6 +249,44 @@ class StreamSession:
             except StopIteration:
                 break
 
+    def _drain_output(self) -> None:
+        """Read the rest of the output stream so the next call starts at a message boundary.
+
+        ``_drained`` is set only when the reader itself reached end-of-stream.
+        An exception raised by the ``on_log`` callback ends the drain early,
+        whether it propagates or is one of the kinds suppressed here, and
+        leaves response bytes unread; a pooled transport must not be reused
+        in that state.
+        """
+        if self._output_reader is None:
+            try:
+                self._output_reader = ValidatedReader(ipc.open_stream(self._reader_stream), self._ipc_validation)
+            except (pa.ArrowInvalid, OSError, StopIteration):
+                return
+        user_on_log = self._on_log
+        in_callback = False
+
+        def on_log(msg: Message) -> None:
+            nonlocal in_callback
+            in_callback = True
+            if user_on_log is not None:
+                user_on_log(msg)
+            in_callback = False
+
+        _MAX_DRAIN = 10_000
+        try:
+            for _ in range(_MAX_DRAIN):
+                in_callback = False
+                # An error batch is not the end of the response: keep reading
+                # to EOS so the next call starts at a message boundary.
+                with contextlib.suppress(RpcError):
+                    _read_batch_with_log_check(self._output_reader, on_log, self._external_config, shm=self._shm)
+        except StopIteration:
+            # End-of-stream, unless the StopIteration came out of the callback.
+            self._drained = not in_callback
+        except (pa.ArrowInvalid, OSError):
+            pass
+
     def close(self) -> None:
         """Close input stream (signals EOS) and drain remaining output."""
         if self._closed:
@@ -250,18 +299,7 @@ class StreamSession:
         else:
             with new_ipc_stream(self._writer_stream, _EMPTY_SCHEMA):
                 pass
-        if self._output_reader is None:
-            try:
-                self._output_reader = ValidatedReader(ipc.open_stream(self._reader_stream), self._ipc_validation)
-            except (pa.ArrowInvalid, OSError, StopIteration):
-                return
-        _MAX_DRAIN = 10_000
-        with contextlib.suppress(StopIteration, pa.ArrowInvalid, OSError):
-            for _ in range(_MAX_DRAIN):
-                # An error batch is not the end of the response: keep reading
-                # to EOS so the next call starts at a message boundary.
-                with contextlib.suppress(RpcError):
-                    _read_batch_with_log_check(self._output_reader, self._on_log, self._external_config, shm=self._shm)
+        self._drain_output()
 
     def cancel(self) -> None:
         """Signal the server to stop processing and discard pending work.
@@ -291,18 +329,7 @@ class StreamSession:
                 self._input_writer.close()
         except _TRANSPORT_ERRORS:
             return
-        if self._output_reader is None:
-            try:
-                self._output_reader = ValidatedReader(ipc.open_stream(self._reader_stream), self._ipc_validation)
-            except (pa.ArrowInvalid, OSError, StopIteration):
-                return
-        _MAX_DRAIN = 10_000
-        with contextlib.suppress(StopIteration, pa.ArrowInvalid, OSError):
-            for _ in range(_MAX_DRAIN):
-                # An error batch is not the end of the response: keep reading
-                # to EOS so the next call starts at a message boundary.
-                with contextlib.suppress(RpcError):
-                    _read_batch_with_log_check(self._output_reader, self._on_log, self._external_config, shm=self._shm)
+        self._drain_output()
 
     def __enter__(self) -> StreamSession:
         """Enter context manager."""
@@ -381,19 +408,33 @@ class _RpcProxy:
         shm = self._shm
         protocol_version = self._protocol_version
 
+        # _PooledTransport (pool.py) tracks whether a response is still owed on
+        # the connection: a call cut short by a client-side exception (e.g. one
+        # raised by ``on_log``) leaves response bytes unread, and the pool must
+        # discard such a worker instead of handing it to the next borrower.
+        tracked = hasattr(transport, "_call_in_flight")
+
         def caller(**kwargs: object) -> object:
             if wire_request_logger.isEnabledFor(logging.DEBUG):
                 wire_request_logger.debug("Unary call: method=%s", info.name)
             try:
+                if tracked:
+                    object.__setattr__(transport, "_call_in_flight", True)  # __slots__
                 _send_request(transport.writer, info, kwargs, shm=shm, protocol_version=protocol_version)
                 reader = ValidatedReader(ipc.open_stream(transport.reader), ipc_validation)
-                return _read_unary_response(reader, info, on_log, ext_cfg, shm=shm)
+                result = _read_unary_response(reader, info, on_log, ext_cfg, shm=shm)
             except RpcError:
+                # An error response is read to end-of-stream before it is raised.
+                if tracked:
+                    object.__setattr__(transport, "_call_in_flight", False)
                 raise
             except _TRANSPORT_ERRORS as exc:
                 raise RpcError(
                     "TransportError", f"Transport failed during unary call to '{info.name}': {exc}", ""
                 ) from exc
+            if tracked:
+                object.__setattr__(transport, "_call_in_flight", False)
+            return result
 
         return caller
 
@@ -418,7 +459,15 @@ class _RpcProxy:
                 # fails, the transport state is tainted and the pool must
                 # discard the worker rather than reuse it.
                 if hasattr(transport, "_stream_opened"):
+                    # Only the most recent session is remembered, so an
+                    # earlier stream that was never settled must stay on
+                    # record; and until this stream has a session of its own
+                    # an older, closed one must not vouch for the transport.
+                    previous = getattr(transport, "_last_stream_session", None)
+                    if getattr(transport, "_stream_opened") and (previous is None or not previous._settled):  # noqa: B009
+                        object.__setattr__(transport, "_stream_abandoned", True)
                     object.__setattr__(transport, "_stream_opened", True)
+                    object.__setattr__(transport, "_last_stream_session", None)
                 header = None
                 if info.header_type is not None:
                     header = _read_stream_header(transport.reader, info.header_type, ipc_validation, on_log, ext_cfg)
